@@ -249,6 +249,21 @@ def falsifying_case(rng, max_depth=3, features=None, tries=40, glob=None, closur
 
 
 SPECIAL = [
+    # a value whose class overrides __format__: a plain replacement field goes through format(value, ""), not through str(value)
+    (["m"], "len(f'{m}') > 100", {"m": "MONEY"}),
+    (["m"], "f'{m}' == ''", {"m": "MONEY"}),
+    (["m"], "f'{m!s}' == f'{m}'", {"m": "MONEY"}),
+    (["m"], "f'{m!r}' == f'{m}' or f'{m:>12}' == ''", {"m": "MONEY"}),
+    (["m", "x"], "f'{x}{m}{x}' == str(m)", {"m": "MONEY", "x": 1}),
+    # a call that hands back an awaitable which the condition merely inspects
+    (["job", "x"], "job(x).done()", {"job": "GETJOB", "x": 1}),
+    (["job", "x"], "job(x).done() or job(x + 1).cancelled()", {"job": "GETJOB", "x": 1}),
+    (["job", "x"], "[j.k for j in [job(x)]] == []", {"job": "GETJOB", "x": 1}),
+    # chained comparisons whose inner operands have an effect: evaluated once by the check, once for the message
+    (["x"], "0 < tick(x) < 3", {"x": 5}),
+    (["x", "y"], "0 <= tick(x) <= tick(y) < 3", {"x": 1, "y": 7}),
+    (["xs", "n"], "0 < tick(len(xs)) < n", {"xs": [1, 2, 3], "n": 2}),
+    (["x", "y"], "tick(x) < tick(y) < tick(x + y) < 0", {"x": 1, "y": 2}),
     # (params, expr, env overrides) - corner forms of the supported grammar
     (None, "max(*xs) > 10", {"xs": [1, 2]}),
     (None, "min(x, *xs) > 10", {"xs": [1, 2]}),
